@@ -120,7 +120,7 @@ def run(m: Model, r: Report, tier: str) -> None:
     r.check(has_row(t1, ["request.service_id not in self.supported_services[self.state.session]", "any("], [], "serviceNotSupportedInActiveSession") and
             has_row(t1, ["request.service_id not in self.supported_services[self.state.session]"], ["any("], "serviceNotSupported") and
             has_row(t1, [], ["request.service_id not in self.supported_services[self.state.session]"], "None") and
-            "any((request.service_id in s for s in self.supported_services.values()))" in ast.unparse(f1.node), "R3", f"{f1.qualname}#table",
+            m.has(f1, "any((request.service_id in s for s in self.supported_services.values()))"), "R3", f"{f1.qualname}#table",
             f"decision table {[(sorted(c), o) for c, o, _ in t1]}; expected: unknown in the active session -> known elsewhere ? 0x7F : 0x11", loc=f1.loc)
     r.check(all("request.service_id" in full for _, o, full in t1 if o not in ("None",)), "R3", f"{f1.qualname}#names-request-service",
             "the negative response must name the request's service id", loc=f1.loc)
